@@ -216,6 +216,14 @@ func bigAtom(v ssa.Value) string {
 // predOf normalises a guard.
 func predOf(g Guard) Pred {
 	p := predOfVal(g.Cond, g.Pol)
+	// a length is never negative: −len(x) ≥ 0 (written len(x) <= 0, len(x) < 1, !(len(x) > 0)) is len(x) == 0
+	if p.Kind == "ge" && p.L.K == 0 && len(p.L.T) == 1 {
+		for a, k := range p.L.T {
+			if k == -1 && strings.HasPrefix(a, "len(") {
+				p = Pred{Kind: "eq", L: Lin{T: map[string]int64{a: 1}}}
+			}
+		}
+	}
 	p.Src = g.String()
 	return p
 }
@@ -236,6 +244,20 @@ func predOfVal(v ssa.Value, pol bool) Pred {
 			if l, ok := bigCmpCall(x.Y); ok {
 				if k, isK := constInt(x.X); isK {
 					return signPred(l, flipOp(op), k, pol)
+				}
+			}
+			// bytes.Compare(a, b) == 0 / != 0 is bytes.Equal(a, b) / its negation
+			if op == token.EQL || op == token.NEQ {
+				for _, pr := range [][2]ssa.Value{{x.X, x.Y}, {x.Y, x.X}} {
+					if cl, ok := pr[0].(*ssa.Call); ok && calleeName(cl.Common()) == "bytes.Compare" && isZeroConst(pr[1]) {
+						_, ca := callArgs(cl.Common())
+						a, b := sorted2(render(ca[0]), render(ca[1]))
+						eq := op == token.EQL
+						if !pol {
+							eq = !eq
+						}
+						return Pred{Kind: "same", A: a, B: b, Pol: eq}
+					}
 				}
 			}
 			if isIntType(x.X.Type()) && isIntType(x.Y.Type()) {
@@ -284,6 +306,13 @@ func predOfVal(v ssa.Value, pol bool) Pred {
 		cc := x.Common()
 		recv, args := callArgs(cc)
 		name := methodName(cc)
+		// a private single-expression boolean helper is read through: f(a, b) with
+		// `func f(x, y T) bool { return <expr over x, y> }` is the predicate <expr>[x:=a, y:=b]
+		if inlineHelpers {
+			if p, ok := inlineBoolHelper(x, pol); ok {
+				return p
+			}
+		}
 		if name == "Equal" {
 			if recv == nil && len(args) == 2 { // bytes.Equal(a,b)
 				a, b := sorted2(render(args[0]), render(args[1]))
@@ -518,6 +547,17 @@ func holds(gs []Guard, w Want) (string, bool) {
 		if implies(p, w) {
 			return p.String(), true
 		}
+		// second reading: a single-expression boolean helper read through
+		if c, _ := stripNot(g.Cond, g.Pol); c != nil {
+			if _, isCall := c.(*ssa.Call); isCall {
+				inlineHelpers = true
+				p2 := predOf(g)
+				inlineHelpers = false
+				if implies(p2, w) {
+					return p2.String() + " (via " + render(c) + ")", true
+				}
+			}
+		}
 	}
 	return "", false
 }
@@ -553,4 +593,80 @@ func (c *Ctx) requireAny(rule, construct string, pos token.Pos, gs []Guard, desc
 	}
 	c.violate(rule, construct+" ⊢ "+desc, pos, "not established on this path; guards here: "+guardsString(gs))
 	return false
+}
+
+
+var inlineDepth int
+
+// inlineHelpers: when set, predOfVal reads single-expression boolean helpers
+// through (holds tries both readings of every guard).
+var inlineHelpers bool
+
+// inlineBoolHelper reads a call of a statically known function whose body is a
+// single basic block returning one boolean expression of its parameters (no
+// other calls than pure built-ins/len) as that expression with the arguments
+// substituted. Anything else is left alone.
+func inlineBoolHelper(call *ssa.Call, pol bool) (Pred, bool) {
+	if inlineDepth > 2 {
+		return Pred{}, false
+	}
+	fn := call.Common().StaticCallee()
+	if fn == nil || len(fn.Blocks) != 1 || fn.Signature.Results().Len() != 1 {
+		return Pred{}, false
+	}
+	if bt, ok := fn.Signature.Results().At(0).Type().Underlying().(*types.Basic); !ok || bt.Kind() != types.Bool {
+		return Pred{}, false
+	}
+	var ret *ssa.Return
+	for _, in := range fn.Blocks[0].Instrs {
+		switch y := in.(type) {
+		case *ssa.Return:
+			ret = y
+		case *ssa.Call:
+			if _, isBuiltin := y.Common().Value.(*ssa.Builtin); !isBuiltin {
+				return Pred{}, false // the helper calls something: not a pure expression
+			}
+		case *ssa.Store, *ssa.MapUpdate, *ssa.Send, *ssa.Go, *ssa.Defer, *ssa.Panic:
+			return Pred{}, false
+		}
+	}
+	if ret == nil || len(ret.Results) != 1 {
+		return Pred{}, false
+	}
+	if _, isConst := ret.Results[0].(*ssa.Const); isConst {
+		return Pred{}, false
+	}
+	inlineDepth++
+	p := predOfVal(ret.Results[0], pol)
+	inlineDepth--
+	// substitute the callee's parameter names by the rendered arguments
+	sub := map[string]string{}
+	args := call.Common().Args
+	for i, prm := range fn.Params {
+		if i < len(args) {
+			sub[render(prm)] = render(args[i])
+		}
+	}
+	re := regexp.MustCompile(`\$(r|[0-9]+)`)
+	rw := func(t string) string {
+		return re.ReplaceAllStringFunc(t, func(m string) string {
+			if v, ok := sub[m]; ok {
+				return v
+			}
+			return m
+		})
+	}
+	switch p.Kind {
+	case "ge", "eq", "ne":
+		nt := map[string]int64{}
+		for a, c := range p.L.T {
+			nt[rw(a)] += c
+		}
+		p.L.T = nt
+	case "same":
+		p.A, p.B = sorted2(rw(p.A), rw(p.B))
+	case "bool":
+		p.A = rw(p.A)
+	}
+	return p, true
 }
